@@ -92,6 +92,23 @@ Proof.
 Qed.
 
 (* every transport is wired through the interceptors *)
+(* the operation class a method is enforced with fits what the method does: whatever adds to or deletes from stored data
+   needs the write class, whatever only reads the read class (decided over the regenerated method table) *)
+Lemma classes_check : classes_ok = true.
+Proof. vm_compute. reflexivity. Qed.
+Theorem C05_mutators_need_write : forall m o, In (m, o) method_map ->
+  prefix "/gripql.Configure/" m = false ->
+  (prefix "Add" (verb_of m) || prefix "Delete" (verb_of m) || prefix "Bulk" (verb_of m) = true -> o = OpWrite) /\
+  (prefix "Add" (verb_of m) || prefix "Delete" (verb_of m) || prefix "Bulk" (verb_of m) = false ->
+   prefix "Get" (verb_of m) || prefix "List" (verb_of m) || prefix "Search" (verb_of m) || prefix "View" (verb_of m) = true -> o = OpRead).
+Proof.
+  intros m o Hin Hc. pose proof (proj1 (forallb_forall class_rule method_map) classes_check (m, o) Hin) as H.
+  unfold class_rule in H. cbn [fst snd] in H. rewrite Hc in H. split.
+  - intros Hw. rewrite Hw in H. destruct o; try discriminate H; reflexivity.
+  - intros Hw Hr. rewrite Hw, Hr in H. destruct o; try discriminate H; reflexivity.
+Qed.
+Print Assumptions C05_mutators_need_write.
+
 (* the credential check (accounts/basic.go): a name validates only as a configured account presented with that
    account's password -- in particular never for a name that is not an account, whatever the password *)
 Theorem C05_basic_credentials : forall accounts hdr u, basic_validate accounts hdr = Some u ->
